@@ -39,7 +39,10 @@ Layouts ==
      \* executable segment spanning several pages, starting mid page, preceded by read-only data
      << Seg(0, VBase, 9040, 9040, FALSE), Seg(9040, VBase + 4096 + 9040, 10000, 10000, TRUE) >>,
      \* huge-page style alignment: large gap in vaddr
-     << Seg(0, VBase, 4096, 4096, FALSE), Seg(4096, VBase + 2097152, 8192, 8192, TRUE) >> >>
+     << Seg(0, VBase, 4096, 4096, FALSE), Seg(4096, VBase + 2097152, 8192, 8192, TRUE) >>,
+     \* an executable segment whose memory size exceeds its file size by several pages (zero-filled tail)
+     << Seg(0, VBase, 5000, 5000 + 12288, TRUE) >>,
+     << Seg(0, VBase, 800, 800, FALSE), Seg(4096, VBase + 4096, 4500, 4500 + 8192, TRUE), Seg(8596, VBase + 28672 + 404, 300, 300, FALSE) >> >>
 Types == {"EXEC", "DYN"}
 Biases == {0, 5 * Page, 77 * Page}
 
